@@ -281,16 +281,21 @@ CLAIMED = {
         design_ref="DESIGN.md section 3 / C16",
         technique="static analysis: comparison-only truth table of contains(); finite evaluation of the hardware-address "
                   "parser's character tests over all 256 byte values; structural rules on operators, hashes, inet_pton "
-                  "gating and mask helpers over the clang AST/CFG",
+                  "gating and mask helpers over the clang AST/CFG; abstract interpretation of the byte-wise "
+                  "carry chains (E-BYTEWALK)",
         text="NARROW claim. Decides: (R1) AddressRange::contains(x) equals first <= x <= last on every ordering (the "
              "address is touched only through < and ==) and the constructor throws exactly when last < first; (R2) the six "
              "comparison operators of IPv4Address, IPv6Address, HWAddress<6> are one order over the same storage; (R3) each "
              "std::hash specialisation reads only the address value; (R4) inet_pton's result gates success and the other "
              "edge throws; the hardware parser's per-character classification, evaluated for all 256 byte values, accepts "
-             "exactly the hex digits with their values and ':'; (R5) range ends are address AND mask / address OR NOT mask.",
+             "exactly the hex digits with their values and ':'; (R5) range ends are address AND mask / address OR NOT mask; "
+             "(R6) iteration: increment_buffer / decrement_buffer (IPv6, hardware addresses) are the big-endian successor / predecessor "
+             "for every carry length 0..N and return true exactly on wrap-around (abstract interpretation of the carry chain over "
+             "{pivot, not pivot, any} bytes of the real length); the scalar IPv4 increment's flag means wrap-around too; the range "
+             "iterator takes its flag from increment(address_) in both the end sentinel and operator++ and compares address and flag.",
         note="NOT decided: IPv4/IPv6 text round trip (delegated to inet_pton/ntop), agreement of < with numeric byte order "
              "(IPv4 host-order storage), prefix-length masks at /0,/31,/32,/127,/128, group structure of the hardware "
-             "grammar, iteration/termination at the all-ones address - value-level.",
+             "grammar, the order of visited addresses as a whole (the successor function and the end protocol are decided, R6) - value-level.",
     ),
     "C19": dict(
         category="other",
